@@ -273,6 +273,8 @@ type c12Case struct {
 	Sources   string `json:"sources,omitempty"`   // token form
 	Files     string `json:"files,omitempty"`     // token form of []c12File
 	Posts     string `json:"posts,omitempty"`     // token form of []c12Post
+	Names     string `json:"names,omitempty"`     // driver: file names the k-th file script answers for
+	Src       string `json:"src,omitempty"`       // driver: hex token of the source URL the Fetcher reports
 }
 
 var c12DModes = []string{"", "templates", "full", "none"}
@@ -1153,14 +1155,19 @@ func c12GenCase(r *Rng, i int) (c12Case, string) {
 }
 
 func runC12(c *Ctx) {
-	c.Res.Rule = "valid profiles (1-4 mappings incl. fake/unsymbolizable/URL-like files, flags partly set, locations partly symbolized, addresses at mapping edges and repeated, function ids dense/sparse/big/next-to-2^64) × modes (local, fastlocal, remote, none, force, demangle=…, upper case, junk tokens) × scripted ObjTool (answers, partial answers, Open errors, SourceLine error at k-th call, build-id mismatch) × scripted symbolz POST (answers per queried address, dropped addresses, raw junk lines, errors) × mapping sources (offsets incl. overflowing ones); 10% direct symbolz.Symbolize, 10% direct Demangle; non-trivial = at least one plug-in call (Open/POST) happened, for direct Demangle at least one function renamed; distinct by canonical text of the whole case"
+	c.Res.Rule = "valid profiles (1-4 mappings incl. fake/unsymbolizable/URL-like files, flags partly set, locations partly symbolized, addresses at mapping edges and repeated, function ids dense/sparse/big/next-to-2^64) × modes (local, fastlocal, remote, none, force, demangle=…, upper case, junk tokens) × scripted ObjTool (answers, partial answers, Open errors, SourceLine error at k-th call, build-id mismatch) × scripted symbolz POST (answers per queried address, dropped addresses, raw junk lines, errors) × mapping sources (offsets incl. overflowing ones); 10% direct symbolz.Symbolize, 10% direct Demangle; plus a driver-level stream (400 cases): `pprof -proto -symbolize=local|fastlocal|remote|force|demangle=…` through driver.PProf with a Fetcher plug-in, scripted ObjTool and symbolz endpoint on single-source profiles containing duplicate samples (same stack+labels), all-zero samples, cancelling pairs, samples differing only in labels, unreferenced functions/locations/mappings — output compared sample for sample with the same command under -symbolize=none (non-trivial there = symbolization added ≥1 function); non-trivial = at least one plug-in call (Open/POST) happened, for direct Demangle at least one function renamed; distinct by canonical text of the whole case"
 	if c.Replay != "" {
 		var cs c12Case
 		if err := c.LoadReplay(&cs); err != nil {
 			c.Res.HarnessError = err.Error()
 			return
 		}
-		c12Run(c, cs)
+		if cs.Kind == "driver" {
+			defer c12DriverEnv()()
+			c12RunDriver(c, cs)
+		} else {
+			c12Run(c, cs)
+		}
 		c.Res.Evaluations++
 		return
 	}
@@ -1178,4 +1185,5 @@ func runC12(c *Ctx) {
 			return
 		}
 	}
+	c12DriverStream(c, r)
 }
